@@ -143,21 +143,22 @@ PROPS["C19"] = dict(
 )
 
 PROPS["C06"] = dict(
-    modules=["Morlock.Props.C06", "Morlock.Props.C06Queries", "Morlock.Props.C01", "Morlock.Props.GenTie"],
-    streams=["c06", "playq"],
+    modules=["Morlock.Props.C06", "Morlock.Props.C06Queries", "Morlock.Props.C01", "Morlock.Props.GenTie", "Morlock.Props.C20Sargon", "Morlock.Props.C20Bernstein"],
+    streams=["c06", "playq", "sargon", "bernstein"],
     level_text="Lean theorems (full, no enumeration of boards): for every square and EVERY occupancy < 2^64 the rook/bishop/queen attackboards computed through the "
                "rotated bitboards and the generated index tables equal the ray sets of the reference geometry (first blocker included); king, knight and pawn "
                "boards equal their step sets; NewRotatedBitboard establishes and Xor preserves the rotation invariant (tables proved injective). The table "
                "constants are read from Morlock.Gen (regenerated from bitboard.go on every run) inside kernel-evaluated facts, so a changed constant re-opens "
                "the proof. Derived queries: IsAttacked / IsDefended / IsChecked equal the reference 'some enemy piece attacks the square' on every represented position "
                "(C06Queries.isAttacked_eq, isChecked_eq; needs the symmetry of the attack relation, proved), IsCheckMate = in check and no reference legal move (C01.isCheckMate_iff_spec). "
-               "FindCapture / FindPins are decided by the differential stream (exploration).",
+               "eval.FindCapture lists exactly the squares from which a piece of the side attacks the square, each once (C20Bernstein.findCapture_spec, findCapture_nodup); eval.FindPins returns exactly "
+               "the pins of the reference ray geometry (C20Sargon.findPins_sound, findPins_complete); both are tied by the sargon / bernstein streams (pins and captures of every square compared exactly).",
     level_note="Trusted: Lean kernel (decide +kernel for the 64-square geometric side conditions); Model.Attack transcription of the init loops tied by an exhaustive "
                "run over all 64 x 256 line states per line through the exported API; Spec.Chess ray geometry.",
     technique="Lean 4 proof: lock-step induction scan loop vs reference ray + kernel-decided table facts; exhaustive differential over line states",
     rule="exhaustive: 64 squares x 256 states of the rank, file and both diagonals (+ queen on rank|file), all squares for K/N/P; random full occupancies; derived queries on generated positions; "
          "non-trivial = (square, line state) pair / position with check, pin, e.p., castling or promotion; distinct by (sq,state) or position key",
-    partial=["eval.FindCapture and eval.FindPins are not transcribed: exercised only through the historical engines' evaluations (C20 stream)"],
+    partial=[],
     modelled=["board/bitboard.go: init loops of king, knight, rookrank, rookfile, bishopL, bishopR; Rook/Bishop/Queen/King/KnightAttackboard, Attackboard, "
               "RotatedBitboard.Xor, NewRotatedBitboard, PawnCaptureboard -> Model.Attack; the seven index tables -> Gen.Tables (generated)"],
     exhaustive=True,
@@ -421,27 +422,39 @@ PROPS["C18"] = dict(
 )
 
 PROPS["C20"] = dict(
-    modules=["Morlock.Props.C20", "Morlock.Props.C20Bernstein", "Morlock.Props.C20Sargon", "Morlock.Props.C20Books", "Morlock.Props.Flt",
-             "Morlock.Props.C06", "Morlock.Props.C01"],
-    streams=["c20", "flt", "bernstein", "sargon", "books"],
-    level_text="Lean theorems for the parts that are rules, not heuristics: the colour mirror (board flipped, colours swapped) is an involution and commutes with the attack relation, check, "
-               "pseudo-legal and legal move generation, making a move, and perft on every position with at most one king per side (attackedBy_mirror, inCheck_mirror, pseudoMoves_mirror, "
-               "apply_mirror, isLegal_mirror, legalMoves_mirror, perft_mirror; the one-king hypothesis is shown necessary), lifted to the bitboard generator through C01 "
-               "(model_legalMoves_mirror); the generic material evaluation (eval.Material with the generated NominalValue table) equals the reference balance and is colour-blind "
-               "(material_eq_spec, material_mirror_model); the no-under-promotion filter selects only legal moves, each once, never an under-promotion, and at least one whenever a legal "
-               "move exists, because the legality of a promotion does not depend on the piece chosen (promo_legal_any, skip_underpromo_legal_and_nonempty, skip_underpromo_nonempty_spec). "
-               "Tie (exploration level) for the three historical evaluators and their filters: on generated legal positions with short histories and on curated squeezed positions, "
-               "for the generic material, TUROCHAMP (Eval, Material) and BERNSTEIN (factor 1, 8, 20) evaluations: the value is finite and equals the value of the colour-mirrored "
-               "game (history mirrored) exactly; SARGON points finite; BERNSTEIN FindPlausibleMoves and the limit 1/3/7 move table select only legal "
-               "non-under-promotion moves, each once, within the limit, at least one whenever a legal move exists, never an illegal pseudo-legal move; SARGON SkipUnderPromotions "
-               "selects a non-empty set without under-promotions; TUROCHAMP considerable-move predicate is evaluated on every legal move after it was made; both opening books are "
-               "walked breadth-first and every reply is checked legal in the position it is keyed on.",
-    level_note="The three historical evaluators (floating-point heuristics, ~1500 lines) are not transcribed: for them the check is differential/exploratory against independent oracles "
-               "(mirror symmetry, legality recomputed from the rules). Proof level is claimed for the mirror symmetry of the rules, the generic material evaluation and the under-promotion filter.",
-    technique="Lean 4 proof (mirror symmetry of the rules, material, under-promotion filter) + property-based differential testing with mirror symmetry and legality oracles; exhaustive walk of the opening books",
-    rule="150 (quick) / 6000 (thorough) positions with histories + curated squeezed positions; non-trivial = distinct script; position features counted",
-    partial=["TUROCHAMP / BERNSTEIN / SARGON evaluators, plausible-move and considerable-move filters are not modelled in Lean: exploration only; Lean covers the mirror symmetry of the rules, eval.Material and the under-promotion filter"],
-    modelled=["eval/material.go Material, NominalValue -> Model (materialPawns); search exploration filter IsUnderPromotion -> Driver.noUnderPromo / Props.C20.pick"],
+    modules=["Morlock.Props.C20", "Morlock.Props.C20Bernstein", "Morlock.Props.C20Sargon", "Morlock.Props.C20Turochamp", "Morlock.Props.C20TurochampFlt",
+             "Morlock.Props.C20Books", "Morlock.Props.Flt", "Morlock.Props.GenTieEngines", "Morlock.Props.GenTieTurochamp", "Morlock.Props.C06", "Morlock.Props.C01"],
+    streams=["c20", "flt", "bernstein", "sargon", "turochamp", "books"],
+    level_text="Lean theorems. Rules: the colour mirror is an involution and commutes with attacks, check, pseudo-legal and legal move generation, making a move and perft on every position "
+               "with at most one king per side (C20.*_mirror; the hypothesis is shown necessary), lifted to the bitboard generator (model_legalMoves_mirror). Floating point: Model.Flt is an exact "
+               "rational model of IEEE binary32/64 round-to-nearest-even arithmetic; Props.Flt proves that rnd returns a nearest representable number (ties to even), is monotone, odd, exact on "
+               "representable values, finite below 2^emax, that bit patterns are injective, that sqrt is correctly rounded and monotone. Generic material: equals the reference balance and is "
+               "colour-blind. BERNSTEIN (eval.go, exchange.go, search.go transcribed function by function): Evaluate >= 1 always, every term bounded, Eval.Evaluate is a finite float32 for every "
+               "represented position with both kings and 0 <= factor <= 10^4 with NO floating-point hypothesis left (eval_total_closed), it panics exactly when a side has no king; "
+               "FindPlausibleMoves returns only legal non-under-promotion moves, each once, non-empty whenever a legal move exists, a permutation of them when castling is not possible; the "
+               "truncated table is a prefix within the limit and non-empty; FindCapture = exactly the attackers of the square by the reference, each once; Evaluate is colour-blind on positions "
+               "without an e.p. target (evaluate_mirror; with a target the opponent's Mobility is taken on a position that is not well-formed for him: decided by the mirrored-history stream only). "
+               "SARGON (eval.go, exchange.go, search.go, pkg/eval/pins.go transcribed): Points.Evaluate is total with explicit bounds on every represented position, every loop terminates within "
+               "its fuel, no index error; FindPins returns exactly the pins of the reference ray geometry; FindAttackers is sound (direct attackers complete); the per-search reference values "
+               "are isolated per board (root_after_reset_other: the repaired 353417e behaviour); the under-promotion filter is C20.pick. Books: engine.NewBook, for EVERY list of lines, either fails "
+               "or returns a book in which every reply is a legal move (also of the reference) of a position reachable from the start whose stripped FEN is the key (newBook_sound, newBook_rejects); "
+               "the extracted BERNSTEIN lines build successfully; all 21 SARGON entries are legal replies (sargon_book_legal); Find depends only on the first four FEN fields. "
+               "TUROCHAMP: exploration level until its transcription lands (mirror symmetry, finiteness, considerable-move legality by the c20 stream). "
+               "Tie: bit-for-bit float arithmetic (flt), all components of both evaluations, plausible tables, pins, attacker stacks, exchange values, complete book contents (bernstein, sargon, books "
+               "streams: impl = model exactly), mirror symmetry and legality oracles on generated histories (c20).",
+    level_note="Trusted: Lean kernel; Model.Flt tied bit-for-bit to Go's float32/float64 (+,-,*,/,sqrt,conversions, math.Round) on the operands of every run; Model.Bernstein / Model.Sargon / Model.EvalPins / "
+               "Model.EvalCapture / Model.Book tied by exact comparison of every intermediate component; book data regenerated from the source (Gen/Books.lean). SARGON is not colour-blind "
+               "(points_not_colour_blind, kernel-checked witness) - the property does not claim it. sort.Slice above 12 elements (unstable) is not modelled: those ops compare values only.",
+    technique="Lean 4 proof (exact IEEE rounding model; function-by-function transcriptions of BERNSTEIN, SARGON, pins/captures, opening books; mirror symmetry of the rules) + exact differential "
+              "correspondence of every intermediate component + mirror/legality oracles",
+    rule="c20: 150/6000 positions with histories + curated squeezed positions (mirror, finiteness, filter legality, book walk); flt: 4.6k/400k float operations incl. every sqrt the evaluators can ask for; "
+         "bernstein: ~950/20k evaluations+tables on curated and random positions with histories; sargon: ~290/15k evaluations with all components; books: ~1.1k/25k book constructions and lookups; "
+         "non-trivial = distinct script / operation",
+    partial=["TUROCHAMP evaluator and considerable-move filter not yet transcribed: exploration only",
+             "BERNSTEIN colour-blindness proved only without an e.p. target; SARGON FindAttackers x-ray chains proved sound, complete only for direct attackers; OnePlyIfChecked only tested",
+             "Go's unstable sort.Slice above 12 elements not modelled (values compared, no difference ever observed)"],
+    modelled=["cmd/bernstein/bernstein/{eval,exchange,search}.go -> Model.Bernstein; pkg/eval/capture.go -> Model.EvalCapture; cmd/sargon/sargon/{eval,exchange,search}.go -> Model.Sargon; "
+              "pkg/eval/pins.go -> Model.EvalPins; pkg/engine/book.go, cmd/*/book.go, fen.Strip -> Model.Book (+ Gen.Books); eval/material.go -> Model (materialPawns); float32/float64 -> Model.Flt"],
 )
 
 
